@@ -533,8 +533,18 @@ primitives (void)
       gost_hmac256 (msg, 32 + (n % 33), msg, n, out, &gb);
       if (!allzero (&gb, sizeof gb))
         bad = "gost_hmac256";
-      vh_stat ("evaluations", 7);
-      vh_stat ("primitive_finals", 7);
+      for (int bits = 256; bits <= 512; bits += 256)
+        {
+          GOST34112012Context gc;
+          memset (&gc, 0x77, sizeof gc);
+          GOST34112012Init (&gc, (unsigned int) bits);
+          GOST34112012Update (&gc, msg, n);
+          GOST34112012Final (&gc, out);
+          if (!allzero (&gc, sizeof gc))
+            bad = bits == 256 ? "GOST34112012Final(256)" : "GOST34112012Final(512)";
+        }
+      vh_stat ("evaluations", 9);
+      vh_stat ("primitive_finals", 9);
       if (bad)
         {
           char sig[120];
